@@ -72,12 +72,12 @@ PROPS = {
                      "trace, final registers and memory (verification hook) and stdout must equal the model's run loop; L3 progs: random whole programs through "
                      "the real assembler (label/procedure indices, source map); non-trivial = more than one instruction executed / program accepted"
                      " L3 jumpspell + roles: grammar-independent oracles for the spelling tables and emission templates of the control-flow instructions."),
-    "C10": dict(modules=["Emu8086.Props.C10", "Emu8086.Props.C10Text", "Emu8086.Props.C12Text"], runs=[("l3", "shapes"), ("l3", "progs"), ("l4", "shapes"), ("l4", "diag"), ("l3", "jumpspell"), ("l3", "roles")], gen=["Arch", "ILiterals", "PPGrammar"],
+    "C10": dict(modules=["Emu8086.Props.C10", "Emu8086.Props.C10Text", "Emu8086.Props.C12Text", "Emu8086.Props.C11Text"], runs=[("l3", "shapes"), ("l3", "progs"), ("l4", "shapes"), ("l4", "diag"), ("l3", "jumpspell"), ("l3", "roles")], gen=["Arch", "ILiterals", "PPGrammar"],
                 rule="shapes: EVERY code-emitting alternative of the CURRENT assembler grammar x every spelling of its mnemonic table x sampled operands "
                      "(generated from the grammar on each run); L3 = real Preprocessor vs model (byte-identical lines); L4 = the same programs executed by the real "
                      "binary: the real DataParser / Interpreter / PrintParser judge every emitted line (any 'Internal Error' is a violation); non-trivial = accepted program"
                      " L4 diag: context mismatches (jump to a procedure name, call of a label, array fill values out of range ...) with verdict expectations; L3 jumpspell + roles."),
-    "C11": dict(modules=["Emu8086.Props.C11", "Emu8086.Props.C16Map"], runs=[("l3", "spell"), ("l3", "shapes"), ("l3", "operands"), ("l3", "roles")], gen=["Arch", "ILiterals", "PPGrammar"],
+    "C11": dict(modules=["Emu8086.Props.C11", "Emu8086.Props.C16Map", "Emu8086.Props.C11Text"], runs=[("l3", "spell"), ("l3", "shapes"), ("l3", "operands"), ("l3", "roles")], gen=["Arch", "ILiterals", "PPGrammar"],
                 rule="spell: programs rendered from the grammar under two independent spelling choices (case of every keyword/register/mnemonic incl. synonyms, "
                      "radix / leading zeros / negative decimal with the same bit pattern / OFFSET of a label with that offset for every constant, amount and kind of "
                      "white space and line breaks): the real assembler must emit identical code and data lists for both (or refuse both with the same diagnostic) and "
